@@ -23,6 +23,13 @@ import remainder
 rem, rem_units, failed, lost = remainder.remainders(repo, cfg["units"])
 assert not failed and not lost, (failed, lost)
 out["__remainder__"] = rem
+pins = {}
+for pid, pc in cfg["properties"].items():
+    for it in pc.get("pinned_items", []):
+        t = remainder.item_text(repo, it["file"], it["item"])
+        assert t is not None, it
+        pins["%s::%s" % (it["file"], it["item"])] = t
+out["__pinned_items__"] = pins
 out["__remainder_units__"] = {k: v for k, v in rem_units.items() if k in rem}
 json.dump(out, open(os.path.join(ROOT, "units", "baseline.json"), "w"), indent=0, sort_keys=True)
 print("recorded", sum(len(v) for k, v in out.items() if not k.startswith("__")), "functions,", len(rem), "pinned remainders")
